@@ -59,9 +59,15 @@ func (i ImportNames) LookupName(pkgPath string) (name string, ok bool) {
 // LookupPath looks up the map with the pkgName and returns its corresponding path
 // in the conversion setup file.
 func (i ImportNames) LookupPath(pkgName string) (path string, ok bool) {
+	if pkgName == "_" {
+		// The blank name refers to nothing.
+		return
+	}
+	// Map iteration order is random: should two paths bear the name, the answer must not
+	// depend on it.
 	for p, n := range i {
-		if n == pkgName {
-			return p, true
+		if n == pkgName && (!ok || p < path) {
+			path, ok = p, true
 		}
 	}
 	return
